@@ -95,35 +95,57 @@ structure Opts where
   piffs     : Nat            -- number of drmSelection entries whose update_traf_if_required inserts a PIFF box
   bugSaio   : Bool           -- `bugs=saio` (mp4.Options.has_bug('saio'))
 
+/-! ### list plumbing
+
+`modFirst f` rewrites the first child on which `f` answers (`traf.tfdt`,
+`traf.trun`, `traf.find_child('saio')` … all pick the first child of a type);
+`insertAt p after b` is `insert_child(index(p) [+1], b)`; `firstSome g` reads a
+field of the first child on which `g` answers. -/
+
+def modFirst (f : TBox → Option TBox) : List TBox → List TBox
+  | [] => []
+  | x :: r => match f x with
+    | some y => y :: r
+    | none => x :: modFirst f r
+
+/-- insert `b` directly before (`after = false`) or after (`after = true`) the
+first child satisfying `p`; no such child: unchanged (Python raises ValueError →
+500; outside `shapeOk`) -/
+def insertAt (p : TBox → Bool) (after : Bool) (b : TBox) : List TBox → List TBox
+  | [] => []
+  | x :: r => if p x then (if after then x :: b :: r else b :: x :: r) else x :: insertAt p after b r
+
+def firstSome {α : Type} (g : TBox → Option α) : List TBox → Option α
+  | [] => none
+  | x :: r => match g x with
+    | some a => some a
+    | none => firstSome g r
+
 /-! ### the edits of `generate_media_segment` -/
 
 /-- `traf.insert_child(traf.index('tfhd') + 1, tfdt)` (lines 200-201) -/
-def insertAfterTfhd (b : TBox) : List TBox → List TBox
-  | [] => []
-  | x :: r => if isTfhd x then x :: b :: r else x :: insertAfterTfhd b r
+def insertAfterTfhd (b : TBox) : List TBox → List TBox := insertAt isTfhd true b
 
 /-- `tfdt.base_media_decode_time += origin_time` on the first tfdt (line 208) with
 the version-0 → version-1 growth of `tfdt.__setattr__` (mp4.py:2203-2207) -/
-def setTfdt (newTime : Nat) : List TBox → List TBox
-  | [] => []
-  | .tfdt v _ :: r => .tfdt (if v = 0 ∧ 2 ^ 32 ≤ newTime then 1 else v) newTime :: r
-  | x :: r => x :: setTfdt newTime r
+def fSetTfdt (newTime : Nat) : TBox → Option TBox
+  | .tfdt v _ => some (.tfdt (if v = 0 ∧ 2 ^ 32 ≤ newTime then 1 else v) newTime)
+  | _ => none
+def setTfdt (newTime : Nat) : List TBox → List TBox := modFirst (fSetTfdt newTime)
 
 /-- `traf.trun.flags |= data_offset_present` (first trun) -/
-def forceDop : List TBox → List TBox
-  | [] => []
-  | .trun _ fsf per sz d :: r => .trun true fsf per sz d :: r
-  | x :: r => x :: forceDop r
+def fForceDop : TBox → Option TBox
+  | .trun _ fsf per sz d => some (.trun true fsf per sz d)
+  | _ => none
+def forceDop : List TBox → List TBox := modFirst fForceDop
 
-def firstSenc : List TBox → Option (Bool × List Nat)
-  | [] => none
-  | .senc o e :: _ => some (o, e)
-  | _ :: r => firstSenc r
+def gSenc : TBox → Option (Bool × List Nat)
+  | .senc o e => some (o, e)
+  | _ => none
+def firstSenc : List TBox → Option (Bool × List Nat) := firstSome gSenc
 
 /-- `traf.insert_child(traf.index('saiz'), piff)` (playready.py:366-368) -/
-def insertBeforeSaiz (b : TBox) : List TBox → List TBox
-  | [] => []
-  | x :: r => if isSaiz x then b :: x :: r else x :: insertBeforeSaiz b r
+def insertBeforeSaiz (b : TBox) : List TBox → List TBox := insertAt isSaiz false b
 
 /-- one `PlayReady.update_traf_if_required` call that is entitled to insert -/
 def insertPiff (t : List TBox) : List TBox :=
@@ -136,11 +158,12 @@ def insertPiffs : Nat → List TBox → List TBox
   | n + 1, t => insertPiffs n (insertPiff t)
 
 /-- `saio.offsets = None` (lines 256-261) followed by what `encode_box_fields`
-leaves in the list: one offset (value filled in later) – the senc has samples -/
-def resetSaio : List TBox → List TBox
-  | [] => []
-  | .saio v a _ :: r => .saio v a [0] :: r
-  | x :: r => x :: resetSaio r
+leaves in the list: exactly one offset (the senc has samples); its value is
+filled in by `setSaio1` once the positions are known -/
+def fResetSaio : TBox → Option TBox
+  | .saio v a _ => some (.saio v a [0])
+  | _ => none
+def resetSaio : List TBox → List TBox := modFirst fResetSaio
 
 /-- `del atom.sidx`: the first top-level sidx (lines 223-228) -/
 def eraseSidx : List Opq → List Opq
@@ -157,11 +180,15 @@ def hasSaio (t : List TBox) : Bool := t.any isSaio
 def trafTimed (o : Opts) (t : List TBox) : List TBox :=
   setTfdt o.newTime (if hasTfdt t then t else insertAfterTfhd (.tfdt 0 0) t)
 
+def gTfdtVersion : TBox → Option Nat
+  | .tfdt v _ => some v
+  | _ => none
+
 /-- did `tfdt.__setattr__` grow the box (and shift the later siblings by 4)? -/
 def grew (o : Opts) (t : List TBox) : Bool :=
-  match (if hasTfdt t then t else insertAfterTfhd (.tfdt 0 0) t).find? isTfdt with
-  | some (.tfdt v _) => v == 0 && decide (2 ^ 32 ≤ o.newTime)
-  | _ => false
+  match firstSome gTfdtVersion (if hasTfdt t then t else insertAfterTfhd (.tfdt 0 0) t) with
+  | some v => v == 0 && decide (2 ^ 32 ≤ o.newTime)
+  | none => false
 
 /-- `traf_modified` as it stands at line 256 -/
 def trafModified (o : Opts) (t : List TBox) : Bool :=
@@ -210,48 +237,66 @@ def before (p q : TBox → Bool) : List TBox → Bool
   | x :: r => if p x then true else if q x then false else before p q r
 
 def opqTotal (l : List Opq) : Nat := (l.map (·.size)).sum
-def tboxTotal (l : List TBox) : Nat := (l.map (·.size)).sum
 
-/-- offset of the first sample entry inside a senc box: `senc.samples[0].offset` (mp4.py:2425) -/
-def sencRel : List TBox → Nat
-  | [] => 0
-  | .senc o _ :: _ => 16 + b2n o 20
-  | _ :: r => sencRel r
+def gSencRel : TBox → Option Nat
+  | .senc o _ => some (16 + b2n o 20)
+  | _ => none
+/-- offset of the first sample entry inside the senc box: `senc.samples[0].offset` (mp4.py:2425) -/
+def sencRel (t : List TBox) : Nat := (firstSome gSencRel t).getD 0
 
-def trunOffset : List TBox → Int
-  | [] => 0
-  | .trun _ _ _ _ d :: _ => d
-  | _ :: r => trunOffset r
+def gTrunOffset : TBox → Option Int
+  | .trun _ _ _ _ d => some d
+  | _ => none
+def trunOffset (t : List TBox) : Int := (firstSome gTrunOffset t).getD 0
 
-def trunFsf : List TBox → Bool
-  | [] => false
-  | .trun _ f _ _ _ :: _ => f
-  | _ :: r => trunFsf r
+def gTrunFsf : TBox → Option Bool
+  | .trun _ f _ _ _ => some f
+  | _ => none
+def trunFsf (t : List TBox) : Bool := (firstSome gTrunFsf t).getD false
 
-def trunSizes : List TBox → List Nat
-  | [] => []
-  | .trun _ _ _ s _ :: _ => s
-  | _ :: r => trunSizes r
+def gTrunDop : TBox → Option Bool
+  | .trun d _ _ _ _ => some d
+  | _ => none
+def trunDop (t : List TBox) : Bool := (firstSome gTrunDop t).getD false
 
-def saioOffsets : List TBox → Option (List Nat)
-  | [] => none
-  | .saio _ _ o :: _ => some o
-  | _ :: r => saioOffsets r
+def gTrunSizes : TBox → Option (List Nat)
+  | .trun _ _ _ s _ => some s
+  | _ => none
+def trunSizes (t : List TBox) : List Nat := (firstSome gTrunSizes t).getD []
 
-def sencEntries : List TBox → Option (List Nat)
-  | [] => none
-  | .senc _ e :: _ => some e
-  | _ :: r => sencEntries r
+def gSaioOffsets : TBox → Option (List Nat)
+  | .saio _ _ o => some o
+  | _ => none
+def saioOffsets : List TBox → Option (List Nat) := firstSome gSaioOffsets
 
-def setTrunOffset (d : Int) : List TBox → List TBox
-  | [] => []
-  | .trun dop fsf per sz _ :: r => .trun dop fsf per sz d :: r
-  | x :: r => x :: setTrunOffset d r
+def gSencEntries : TBox → Option (List Nat)
+  | .senc _ e => some e
+  | _ => none
+def sencEntries : List TBox → Option (List Nat) := firstSome gSencEntries
 
-def setSaioOffsets (o : List Nat) : List TBox → List TBox
-  | [] => []
-  | .saio v a _ :: r => .saio v a o :: r
-  | x :: r => x :: setSaioOffsets o r
+def gSaioSize : TBox → Option Nat
+  | .saio v a o => some (TBox.size (.saio v a o))
+  | _ => none
+
+/-- value `saio.encode_box_fields` writes in pass 1 when `offsets is None` (mp4.py:2600-2611) -/
+def fSetSaio1 (p1 : Nat) : TBox → Option TBox
+  | .saio v a [_] => some (.saio v a [p1])
+  | .saio v a l => some (.saio v a l)
+  | _ => none
+
+/-- `saio.post_encode` (mp4.py:2635-2650): a single offset that differs from the
+position of the first senc sample entry is rewritten in place – unless `bugs=saio` -/
+def fPostSaio (want : Nat) (hasSenc bug : Bool) : TBox → Option TBox
+  | .saio v a [x] => some (.saio v a [if hasSenc && decide (x ≠ want) && !bug then want else x])
+  | .saio v a l => some (.saio v a l)
+  | _ => none
+
+/-- `trun.post_encode` (mp4.py:2782-2816): data_offset is recomputed against the
+final position of the mdat payload when it does not address it -/
+def fPostTrun (base mdatStart : Nat) : TBox → Option TBox
+  | .trun dop fsf per sz d =>
+      some (.trun dop fsf per sz (if (base : Int) + d ≠ (mdatStart : Int) then (mdatStart : Int) - (base : Int) else d))
+  | _ => none
 
 /-- the served segment -/
 structure Out where
@@ -289,42 +334,32 @@ def rewrite (o : Opts) (s : Seg) : Out :=
   let mdatPos := moofEnd
   let mdatSize := s.mdatHdr + s.payload.length                       -- written from `_encoded`
   let base := moofPos                                                -- tfhd.encode_box_fields: moof.position
-  -- saio.encode_box_fields when offsets is None (mp4.py:2600-2611)
+  -- saio.encode_box_fields when offsets is None (mp4.py:2600-2611): the senc has its final
+  -- position when it was written before the saio, else its parse-time position (+4 when the
+  -- tfdt in front of it grew)
   let storedTrafPos := opqTotal s.pre + 8 + opqTotal s.moofPre
   let staleSenc := storedTrafPos + 8 + offsetOf isSenc s.traf +
     (if grew o s.traf && before isTfdt isSenc (trafTimed o s.traf) then 4 else 0)
   let finalSenc := trafPos + 8 + offsetOf isSenc t
   let sencSeen := if before isSenc isSaio t then finalSenc else staleSenc
-  let reset := saioReset o s.traf
-  let pass1 : Option (List Nat) :=
-    if reset then some [(((sencSeen + sencRel t : Nat) : Int) - (base : Int)).toNat]
-    else saioOffsets t
+  let p1 := (((sencSeen + sencRel t : Nat) : Int) - (base : Int)).toNat      -- `if pos < 0: pos = 0`
+  let t1 := if saioReset o s.traf then modFirst (fSetSaio1 p1) t else t
   -- pass 2: post_encode_all ------------------------------------------------
-  -- trun.post_encode (mp4.py:2782-2816)
   let mdatStart := moofPos + moofSize + s.mdatHdr
-  let d0 := trunOffset t
-  let trunPos := trafPos + 8 + offsetOf isTrun t
-  let moved := decide ((base : Int) + d0 ≠ (mdatStart : Int))
-  let d1 : Int := if moved then (mdatStart : Int) - (base : Int) else d0
-  let trunPatch := if moved then [(trunPos + 12, 8 + b2n (trunFsf t) 4)] else []
-  -- saio.post_encode (mp4.py:2635-2650)
   let want := finalSenc + sencRel t - base
+  let t2 := modFirst (fPostSaio want (hasSenc t) o.bugSaio) t1
+  let t3 := modFirst (fPostTrun base mdatStart) t2
+  let trunPos := trafPos + 8 + offsetOf isTrun t
+  let trunPatch := if trunOffset t3 ≠ trunOffset t then [(trunPos + 12, 8 + b2n (trunFsf t) 4)] else []
   let saioPos := trafPos + 8 + offsetOf isSaio t
-  let saioSize := ((t.find? isSaio).map TBox.size).getD 0
-  let (final, saioPatch) : Option (List Nat) × List (Nat × Nat) :=
-    match pass1 with
-    | some [x] =>
-      if hasSenc t && decide (x ≠ want) && !o.bugSaio then (some [want], [(saioPos, saioSize)])
-      else (some [x], [])
-    | other => (other, [])
-  let t' := setTrunOffset d1 (match final with | some l => setSaioOffsets l t | none => t)
+  let saioPatch := if saioOffsets t2 ≠ saioOffsets t1 then [(saioPos, (firstSome gSaioSize t).getD 0)] else []
   let top := opqs pre2 ++ [("moof", moofSize), ("mdat", mdatSize)] ++ opqs post1
   { top := place 0 top
     moofPos := moofPos, moofSize := moofSize
     moofKids := place (moofPos + 8) (opqs s.moofPre ++ [("traf", trafSize)] ++ opqs s.moofPost)
     trafPos := trafPos, trafSize := trafSize
-    trafKids := place (trafPos + 8) (tboxes t')
-    traf := t'
+    trafKids := place (trafPos + 8) (tboxes t3)
+    traf := t3
     base := base
     mdatPos := mdatPos, mdatSize := mdatSize
     payloadStart := mdatPos + s.mdatHdr
